@@ -153,7 +153,7 @@ Definition any_mask : N := 65535.
 Definition cert_mask : N := 2 ^ F_X509 + 2 ^ 5.   (* AuthTypeKeymasterX509 | AuthTypeIPCertificate *)
 
 (* who the request is authenticated as, and at which level.  checkAuth looks at the verified client
-   certificate first when the required mask admits certificates: identity and level
+   certificate first when the required mask lets certificates in: identity and level
    (AuthTypeKeymasterX509 alone) then come from the certificate and the cookies are not looked at *)
 Definition auth (k : config) (s : st) (cert : option N) (cs : list nat) (mask : N) : option (N * N) :=
   match (if N.eqb (N.land mask cert_mask) 0 then None else cert) with
